@@ -1,4 +1,5 @@
 import TLVerif.Sema.SemaphoreLemmas
+import TLVerif.Generated.SemaFacts
 /-!
 # C42 — Weighted semaphore never over-admits and never loses wakeups
 
@@ -23,6 +24,25 @@ and stays asleep (`ZeroGap`).  The full-strength statement is kept as `NoLostWak
 -/
 namespace TLVerif.Props.C42
 open TLVerif.Sema
+
+/-! ## Shape of the code the model was written from (T1, regenerated from the source on every run) -/
+
+/-- The ordered callee lists of the methods of `semaphore.go`, extracted from the working tree, are the ones the
+model encodes: every method is one `Lock … Unlock` section (`Acquire`: fast-path / doomed / enqueue exits of the first
+section, then the cancellation section); exactly `SetSize`, `Release` (after the over-release `panic`) and `Acquire`'s
+cancellation section call `notifyWaiters`; `ForceAcquire`, `TryAcquire`, `Observe` wake nobody; arrivals are
+`PushBack`ed and `notifyWaiters` takes from the `Front`, `Remove`s and `close`s; `WaitEmpty` is `Acquire` then `Release`.
+If the source changes shape this theorem (hence the check) breaks and the model must be revisited. -/
+theorem code_shape :
+    Facts.Sema.callsSetSize = ["Lock", "notifyWaiters", "Unlock"] ∧
+    Facts.Sema.callsForceAcquire = ["panic", "Lock", "Unlock"] ∧
+    Facts.Sema.callsObserve = ["Lock", "Unlock"] ∧
+    Facts.Sema.callsTryAcquire = ["panic", "Lock", "Len", "Unlock"] ∧
+    Facts.Sema.callsRelease = ["panic", "Lock", "Unlock", "panic", "notifyWaiters", "Unlock"] ∧
+    Facts.Sema.callsNotifyWaiters = ["Front", "Remove", "close"] ∧
+    Facts.Sema.callsAcquire = ["panic", "Lock", "Len", "Unlock", "Unlock", "Done", "Err", "make", "PushBack", "Unlock",
+      "Done", "Err", "Lock", "Front", "Remove", "notifyWaiters", "Unlock"] ∧
+    Facts.Sema.callsWaitEmpty = ["Acquire", "Release"] := by decide
 
 /-! ## Part 1 — never over-admits -/
 
@@ -64,6 +84,24 @@ theorem nonforced_never_pushes_above (s : State) (op : Op) (hf : ∀ n, op ≠ .
     have := hok e he; unfold AdmOK at this; omega
   have := chain_bound _ _ _ _ hch hb
   omega
+
+/-- History form: in a history without `ForceAcquire` whose `SetSize` arguments never exceed `M`, started in a state
+with `cur ≤ M` and `size ≤ M` (e.g. `NewWeighted(size)` with `M = max size 0`), the total never exceeds `M` —
+for every schedule, including cancellations and shrinking resizes. -/
+theorem cur_bounded_without_force (M : Int) (s : State) (ops : List Op) (hc : s.cur ≤ M) (hs : s.size ≤ M)
+    (hops : ∀ op ∈ ops, (∀ n, op ≠ .force n) ∧ (∀ n, op = .setSize n → n ≤ M)) :
+    (exec s ops).cur ≤ M ∧ (exec s ops).size ≤ M := by
+  induction ops generalizing s with
+  | nil => exact ⟨hc, hs⟩
+  | cons op ops ih =>
+    have hop := hops op (List.mem_cons_self ..)
+    have h1 := nonforced_never_pushes_above s op hop.1
+    have h2 : (step s op).1.size ≤ M := by
+      rw [step_size]
+      cases op with
+      | setSize n => exact hop.2 n rfl
+      | _ => exact hs
+    exact ih _ (by omega) h2 (fun o ho => hops o (List.mem_cons_of_mem _ ho))
 
 /-! ## Part 2 — never loses wake-ups -/
 
@@ -112,6 +150,16 @@ theorem no_lost_wakeup_positive (size : Int) (ops : List Op) (hp : ∀ op ∈ op
     (hr : NoOverRelease (init size) ops) : ∀ k, NoLost (exec (init size) (ops.take k)) :=
   no_lost_wakeup_partial size ops (cleanRun_of_pos _ _ (by simp [PosQueue, init]) hp hr)
 
+/-- **The suggested repair is sufficient.** With the cancellation test changed to `isFront && s.size >= s.cur`
+(`stepCancelFixed`; identical to the original outside the gap, `stepCancelFixed_eq`) the full-strength invariant
+holds after every history that contains no over-release — weight 0 included. -/
+theorem no_lost_wakeup_fixed (size : Int) (ops : List Op) (hr : NoOverReleaseFixed (init size) ops) :
+    NoLost (execFixed (init size) ops) :=
+  execFixed_noLost _ _ (init_noLost size) hr
+
+theorem fixed_differs_only_in_gap (s : State) (id : Nat) (h : ¬ (isFront s id = true ∧ s.size = s.cur)) :
+    stepCancelFixed s id = stepCancel s id := stepCancelFixed_eq s id h
+
 /-- Self-stabilisation: `Release` (that does not panic) and `SetSize` re-establish the invariant from *any*
 state, in particular after one of the two excluded situations. -/
 theorem release_restores (s : State) (n : Int) (h0 : 0 ≤ n) (h1 : n ≤ s.cur) : NoLost (step s (.release n)).1 := by
@@ -123,6 +171,18 @@ theorem release_restores (s : State) (n : Int) (h0 : 0 ≤ n) (h1 : n ≤ s.cur)
     · exact afterNotify_noLost _ _
 
 theorem setSize_restores (s : State) (n : Int) : NoLost (step s (.setSize n)).1 := afterNotify_noLost _ _
+
+/-- **Wake-up exactly when capacity allows.** A `Release` (resp. `SetSize`) after which the first waiter fits admits
+it in the same critical section, as the first admission, at the running total `cur − n + weight`. -/
+theorem release_admits_front (s : State) (n : Int) (w : Waiter) (ws : List Waiter) (hw : s.waiters = w :: ws)
+    (h0 : 0 ≤ n) (h1 : n ≤ s.cur) (hfit : (w.n : Int) ≤ s.size - (s.cur - n)) :
+    ∃ rest, (step s (.release n)).2.adm = ⟨some w.id, w.n, s.cur - n + w.n, s.size⟩ :: rest :=
+  Sema.release_admits_front s n w ws hw h0 h1 hfit
+
+theorem setSize_admits_front (s : State) (n : Int) (w : Waiter) (ws : List Waiter) (hw : s.waiters = w :: ws)
+    (hfit : (w.n : Int) ≤ n - s.cur) :
+    ∃ rest, (step s (.setSize n)).2.adm = ⟨some w.id, w.n, s.cur + w.n, n⟩ :: rest :=
+  Sema.setSize_admits_front s n w ws hw hfit
 
 /-- **cancel_preserves.** Cancelling a waiter (outside the zero-weight gap) keeps the invariant, never changes
 `size`, changes `cur` only through the admissions it lists, and removes exactly that ticket from the queue:
@@ -140,6 +200,36 @@ theorem cancel_preserves (s : State) (id : Nat) (h : NoLost s) (hz : ¬ ZeroGap 
     · simp only [hnf, and_self, if_true]; rfl
     · simp only [hnf, if_false]
   · split <;> rfl
+
+/-- A cancelled ticket is never admitted by its own cancellation step (its weight does not enter `cur`). -/
+theorem cancel_not_admitted (s : State) (id : Nat) : id ∉ admTickets (step s (.cancel id)).2 :=
+  Sema.cancel_not_admitted s id
+
+/-- "On failure, returns ctx.Err() and leaves the semaphore unchanged": an `Acquire` that blocks and whose context
+is cancelled before any other critical section restores `size`, `cur`, the queue and the parked set exactly,
+and wakes nobody. -/
+theorem failed_acquire_unchanged (s : State) (n : Int) (h : WF s)
+    (hres : (step s (.acquire n)).2.res = .blocked ∨ (step s (.acquire n)).2.res = .doomed) :
+    let s2 := (step (step s (.acquire n)).1 (.cancel s.next)).1
+    s2.size = s.size ∧ s2.cur = s.cur ∧ s2.waiters = s.waiters ∧ s2.doomed = s.doomed ∧
+    (step (step s (.acquire n)).1 (.cancel s.next)).2 = ⟨.err, []⟩ :=
+  Sema.failed_acquire_unchanged s n h hres
+
+/-! ## Part 2b — every blocked `Acquire` call has exactly one outcome -/
+
+/-- Well-formedness (arrival order, tickets below `next`) holds in every reachable state. -/
+theorem reachable_wf (size : Int) (ops : List Op) : WF (exec (init size) ops) := exec_wf _ _ (wf_init size)
+
+/-- **acquire_returns_once.** In any state, if a blocked ticket stops being blocked in a step then *either* the step
+admitted it (`Acquire` returns nil; the admission is one of the events bounded by `admit_within_size`) *or* the step
+is its own cancellation, which returns `ctx.Err()` and does not admit it — never both; and a ticket that is no
+longer blocked never becomes blocked again. -/
+theorem acquire_returns_once (s : State) (op : Op) (t : Nat) :
+    (Blocked s t → ¬ Blocked (step s op).1 t →
+      (t ∈ admTickets (step s op).2 ∧ op ≠ .cancel t) ∨
+      (op = .cancel t ∧ (step s op).2.res = .err ∧ t ∉ admTickets (step s op).2)) ∧
+    (t < s.next → ¬ Blocked s t → ¬ Blocked (step s op).1 t) :=
+  ⟨blocked_leaves_once s op t, never_reblocked s op t⟩
 
 /-! ## Part 3 — FIFO -/
 
@@ -177,6 +267,29 @@ theorem queue_conservation (s : State) (op : Op) :
         (step s op).2.adm.map Adm.key ++ (step s op).1.waiters.map Waiter.key =
           (s.waiters.filter (fun w => !(w.id == id))).map Waiter.key :=
   step_queue s op
+
+/-! ## `WaitEmpty` (not in the property's operation list; modelled as the composition it is) -/
+
+/-- `WaitEmpty` is `Acquire(ctx, s.size)` followed by `Release(s.size)` with `s.size` read again (both reads outside the
+mutex).  On an idle semaphore the two critical sections restore the state (only the ticket counter moves). -/
+theorem waitEmpty_idle_neutral (s : State) (hw : s.waiters = []) (hc : s.cur = 0) (h0 : 0 ≤ s.size) :
+    (step (step s (.acquire s.size)).1 (.release s.size)).1 = { s with next := s.next + 1 } := by
+  have h1 : (step s (.acquire s.size)).1 = { s with next := s.next + 1, cur := s.cur + s.size } := by
+    simp only [step, stepAcquire]
+    rw [if_neg (by omega), if_pos ⟨by show s.size - s.cur ≥ s.size; omega, by simp [hw]⟩]
+  rw [h1]
+  simp only [step, stepRelease]
+  rw [if_neg (by omega), if_neg (by show ¬ (s.cur + s.size - s.size < 0); omega)]
+  simp only [afterNotify, hw, notify, hc]
+  have : (0 : Int) + s.size - s.size = 0 := by omega
+  simp only [this]
+
+/-- Observations on the real code (reproduced by the tie, `sema.h 1 t1,w,s5`): because the second read of `s.size` may
+differ from the first, a `WaitEmpty` that waited across a growing `SetSize` releases more than it acquired and panics
+("released more than held")… -/
+example : (step (exec (init 1) [.tryAcquire 1, .acquire 1, .setSize 5]) (.release 5)).2.res = .panic := by decide
+/-- …and across a shrinking `SetSize` it releases less: weight stays in `cur` for ever although nobody holds it. -/
+example : (exec (init 2) [.acquire 2, .setSize 1, .release 1]).cur = 1 := by decide
 
 /-! ## Range of the model -/
 
